@@ -1,4 +1,6 @@
 import Thanos.Model.Gate
+import Thanos.Model.GateId
+import Thanos.Lemmas.GateId
 import Thanos.Generated.Facts
 /-
   C24 — The remote-write concurrency gate is never exceeded.
@@ -222,6 +224,127 @@ theorem C24_fixed_scripts (cap : Nat) (evs : List Ev) : Safe (evs.foldl (scriptS
 /-- C24 holds of both entry points as they are now -/
 theorem C24_holds : C24_full codeDoneFirstHTTP ∧ C24_full codeDoneFirstOTLP := ⟨C24_fixed, C24_fixed⟩
 
+/-! ### the gate has an identity: one gate per loaded configuration -/
+
+/-- C24 over the limiter: whatever the schedule of configuration loads, arrivals and handler
+    events, the requests admitted under one configuration are bounded by its `max_concurrency`
+    (they all went through the same gate), every gate is Safe, and no two gates belong to the same
+    configuration epoch. -/
+def C24_limiter_full (lazy doneFirst : Bool) : Prop :=
+  ∀ (cap : Nat) (evs : List LEv), 1 ≤ cap →
+    let l := lrun lazy doneFirst cap evs
+    (∀ ep, runningIn l ep ≤ cap) ∧ (∀ r, r ∈ l.gates → Safe r.st) ∧
+    (∀ (i j : Nat) (ri rj : GateRec), l.gates[i]? = some ri → l.gates[j]? = some rj → ri.epoch = rj.epoch → i = j)
+
+def LInv (l : Lim) : Prop :=
+  WFE 0 l.gates ∧ l.gates.length = l.epoch ∧ l.builders = 0 ∧
+  (∀ r, r ∈ l.gates → Inv r.st ∧ r.st.cap = l.cap)
+
+theorem linv_stepGate {l : Lim} (h : LInv l) (g : Nat) (e : Ev) :
+    LInv { l with gates := stepGate false l.gates g e } := by
+  obtain ⟨h1, h2, h3, h4⟩ := h
+  unfold stepGate
+  cases hg : l.gates[g]? with
+  | none => exact ⟨h1, h2, h3, h4⟩
+  | some r =>
+    have hr : r ∈ l.gates := List.mem_of_getElem? hg
+    refine ⟨wfe_set h1 g r _ hg rfl, by simpa using h2, h3, ?_⟩
+    intro x hx
+    rcases List.mem_or_eq_of_mem_set hx with hx | rfl
+    · exact h4 x hx
+    · exact ⟨inv_step (h4 r hr).1 e, by simp only [step_cap]; exact (h4 r hr).2⟩
+
+theorem linv_step {l : Lim} (h : LInv l) (e : LEv) : LInv (lstep false false l e) := by
+  have h' := h
+  obtain ⟨h1, h2, h3, h4⟩ := h
+  cases e with
+  | load =>
+    simp only [lstep, Bool.false_eq_true, if_false]
+    refine ⟨?_, by simp [h2], h3, ?_⟩
+    · have := wfe_append h1 (St.init l.cap)
+      simpa [h2] using this
+    · intro r hr
+      rcases List.mem_append.mp hr with hr | hr
+      · exact h4 r hr
+      · simp only [List.mem_singleton] at hr
+        subst hr
+        exact ⟨inv_init l.cap, rfl⟩
+  | arrive =>
+    simp only [lstep]
+    cases hs : l.stored with
+    | none => simpa using h'
+    | some g => exact linv_stepGate h' g .arrive
+  | build => simpa [lstep] using h'
+  | on g e =>
+    simp only [lstep]
+    split
+    · exact h'
+    · exact linv_stepGate h' g e
+
+theorem linv_run (cap : Nat) (evs : List LEv) : LInv (lrun false false cap evs) := by
+  unfold lrun
+  have hi : LInv (Lim.init cap) := ⟨trivial, rfl, rfl, fun r hr => by simp [Lim.init] at hr⟩
+  generalize Lim.init cap = l at hi
+  induction evs generalizing l with
+  | nil => exact hi
+  | cons e evs ih => exact ih _ (linv_step hi e)
+
+theorem lrun_cap (lazy df : Bool) (cap : Nat) (evs : List LEv) : (lrun lazy df cap evs).cap = cap := by
+  unfold lrun
+  have : ∀ (l : Lim), (evs.foldl (lstep lazy df) l).cap = l.cap := by
+    induction evs with
+    | nil => intro l; rfl
+    | cons e evs ih =>
+      intro l
+      simp only [List.foldl_cons, ih]
+      cases e <;> simp only [lstep] <;> (repeat' split) <;> rfl
+  simpa [Lim.init] using this (Lim.init cap)
+
+theorem wfe_getElem {base : Nat} {gs : List GateRec} (h : WFE base gs) {i : Nat} {r : GateRec}
+    (hi : gs[i]? = some r) : r.epoch = base + i + 1 := by
+  induction gs generalizing base i with
+  | nil => simp at hi
+  | cons g gs ih =>
+    obtain ⟨h1, h2⟩ := h
+    cases i with
+    | zero => simp at hi; subst hi; omega
+    | succ i => simp at hi; have := ih h2 hi; omega
+
+/-- **C24 over the limiter as the code has it** (the gate is built by `loadConfig` under the lock,
+    `WriteGate()` returns the stored field) with the repaired handler skeleton. -/
+theorem C24_limiter_fixed : C24_limiter_full false false := by
+  intro cap evs hc
+  obtain ⟨h1, h2, h3, h4⟩ := linv_run cap evs
+  have hcap := lrun_cap false false cap evs
+  have hsafe : ∀ r, r ∈ (lrun false false cap evs).gates → Safe r.st ∧ r.st.running ≤ cap := by
+    intro r hr
+    obtain ⟨⟨p, hg, _⟩, hrc⟩ := h4 r hr
+    rw [hcap] at hrc
+    obtain ⟨a, b, c, _⟩ := hg (by omega)
+    exact ⟨⟨fun _ => ⟨by omega, c⟩, p⟩, by omega⟩
+  refine ⟨fun ep => (sum_epoch_le ep 0 _ h1 (fun r hr => (hsafe r hr).2)).1, fun r hr => (hsafe r hr).1, ?_⟩
+  intro i j ri rj hi hj he
+  have := wfe_getElem h1 hi
+  have := wfe_getElem h1 hj
+  omega
+
+/-- **A limiter that builds the gate lazily in `WriteGate()` without re-checking violates C24**
+    although handlers and gates are untouched: max_concurrency 1, the configuration is loaded, two
+    requests find no gate, each builds its own and passes it — two requests of one configuration
+    inside the write path, in two gates of the same epoch. -/
+theorem C24_lazy_exceeds :
+    runningIn (lrun true false 1 [.load, .arrive, .arrive, .build, .build]) 1 = 2 ∧
+    ((lrun true false 1 [.load, .arrive, .arrive, .build, .build]).gates.map (·.epoch)) = [1, 1] := by decide
+
+theorem C24_limiter_lazy_false : ¬ C24_limiter_full true false := by
+  intro h
+  have := (h 1 [.load, .arrive, .arrive, .build, .build] (by decide)).1 1
+  revert this
+  decide
+
+/-- the limiter of the code as it is -/
+theorem C24_limiter_holds : C24_limiter_full codeLazyGate codeDoneFirstHTTP := C24_limiter_fixed
+
 /-! ### tie to the source -/
 
 def doneFirstOfSkeleton : List String → Option Bool
@@ -254,6 +377,20 @@ theorem C24_gate_facts :
     Thanos.Facts.gateNewWrappers = ["InstrumentGateDuration", "InstrumentGateTotal", "InstrumentGateInFlight"] := by
   refine ⟨?_, ?_, ?_, ?_, ?_, ?_, ?_, ?_, ?_, ?_⟩ <;> decide
 
+/-- Regenerated obligation: how the limiter hands out the gate.  The gate is constructed in
+    `loadConfig` only, after `l.Lock()` (with the deferred unlock); the field is assigned at
+    construction (`NewLimiter`: the noop gate) and in `loadConfig` only; `WriteGate()` takes the read
+    lock and returns the stored field — it constructs nothing and tests nothing.  Anything else
+    (e.g. a lazily built gate) is not the limiter of `C24_limiter_holds`. -/
+def lazyOfFacts (builtIn assignedIn body loadSeq : List String) : Option Bool :=
+  if builtIn = ["loadConfig"] ∧ assignedIn = ["NewLimiter", "loadConfig"] ∧
+     body = ["l.RLock()", "defer l.RUnlock()", "return l.writeGate"] ∧
+     loadSeq = ["l.Lock", "l.Unlock", "gate.New"] then some false else none
+
+theorem C24_limiter_fact :
+    lazyOfFacts Thanos.Facts.limiterGateBuiltIn Thanos.Facts.limiterGateAssignedIn
+      Thanos.Facts.limiterWriteGateBody Thanos.Facts.limiterLoadConfigSeq = some codeLazyGate := by decide
+
 /-! ### non-vacuity -/
 
 -- capacity 2, five requests: two run, two wait, one waiter gives up, one completes, a waiter
@@ -263,5 +400,9 @@ example : run false 2 [.arrive, .arrive, .arrive, .arrive, .cancel, .cancelRunni
 example : run false 0 [.arrive, .arriveCancelled, .arrive, .finish] = ⟨0, 0, 2, 0, 0, 0, 0, 3⟩ := by decide
 example : (run true 2 [.arrive, .arrive, .arrive, .arrive, .cancel, .finish, .acquire, .arriveCancelled]).panics = 0 ∧
     (run true 2 [.arrive, .arrive, .arrive, .arrive, .cancel, .acquire, .acquire]).running = 3 := by decide
+
+-- the limiter: start-up load, three arrivals at capacity 2, a reload, two more arrivals, one of the first completes
+example : (lrun false false 2 [.load, .arrive, .arrive, .arrive, .load, .arrive, .on 0 .finish, .on 0 .acquire, .arrive]).gates.map
+    (fun r => (r.epoch, r.st.running, r.st.waiting)) = [(1, 2, 0), (2, 2, 0)] := by decide
 
 end Thanos.Gate
